@@ -291,6 +291,20 @@ def run_shard(path):
     return path, v, out[-3000:] if v is None else "", time.time() - t0
 
 
+def shard_workers(cfg):
+    """coqc processes to run at once: 16, fewer when 16 evaluations of this property's shards would not
+    fit in the memory available now (`shard_mem_mb` in lib/props.d: the measured peak of one shard of the
+    thorough tier; default 1500)"""
+    try:
+        avail = 0
+        for line in open("/proc/meminfo"):
+            if line.startswith("MemAvailable:"):
+                avail = int(line.split()[1]) // 1024
+        return max(2, min(16, int(avail * 0.7 // cfg.get("shard_mem_mb", 1500))))
+    except Exception:
+        return 16
+
+
 def correspondence(prop, cfg, tier, seed, tag="main", extra=None):
     """run the harness and classify.  -> dict(results=[(verdict, replay)], meta, error)"""
     out_dir = os.path.join(BUILD, "run", "%s-%s-%d" % (prop, tag, os.getpid()))
@@ -319,8 +333,17 @@ def correspondence(prop, cfg, tier, seed, tag="main", extra=None):
                 return {"error": "coq build of modules imported by the case files failed:\n" + out2[-2000:], "results": [], "meta": meta, "dir": out_dir}
     results = []
     err = None
-    with concurrent.futures.ThreadPoolExecutor(max_workers=16) as ex:
-        for path, v, elog, secs in ex.map(run_shard, [os.path.join(out_dir, s) for s in shards]):
+    paths = [os.path.join(out_dir, s) for s in shards]
+    with concurrent.futures.ThreadPoolExecutor(max_workers=shard_workers(cfg)) as ex:
+        outcomes = list(ex.map(run_shard, paths))
+    # a coqc that died without a message from Coq (killed: out of memory on a busy machine) says nothing
+    # about the cases: such shards are evaluated again, one at a time; a Coq error is never retried
+    for i, (path, v, elog, secs) in enumerate(outcomes):
+        if v is None and "Error" not in elog and "[timeout]" not in elog:
+            log("[%s] shard %s: coqc ended without a verdict or an error (killed?); evaluating it again alone"
+                % (prop, os.path.basename(path)))
+            outcomes[i] = run_shard(path)
+    for path, v, elog, secs in outcomes:
             replays = [json.loads(l) for l in open(path[:-2] + ".jsonl")]
             if v is None:
                 err = "coqc failed on %s:\n%s" % (path, elog)
